@@ -14,7 +14,8 @@ EXPLANATION = (
     'deepest first, and reap (R-KILL-TREE), the reap of a killed worker being a blocking waitpid that does not wait '
     'for the sentinel pipe, which outlives the worker when a descendant inherited it (R-EXITCODE); the manager then '
     'exits through the empty-pending branch (R-MGR-EXIT). Also decided: the kill flag as a function of (argument, '
-    'previous flag): None keeps, True sets, False keeps (R-KILL-PATH). Not decided: wall-clock promptness; '
+    'previous flag): None keeps, True sets, False keeps, and the factory hands its kill_workers argument to shutdown as given '
+    '(R-KILL-PATH); every Process method loky calls on a worker finds what it delegates to on loky\'s Popen (R-POPEN-API). Not decided: wall-clock promptness; '
     'psutil/pgrep semantics.'
 )
 
@@ -32,4 +33,5 @@ def run(e, R, tier):
         B.r_mgr_total,
         SC.r_scn_manager,
         Pr.r_exitcode,
+        Pr.r_popen_api,
     ])
